@@ -1,6 +1,6 @@
 From Coq Require Import ZArith List Bool Lia.
 From Arsenal Require Import Util.
-From Arsenal Require VamDev VamBlockList Vam VamInv VamInvThm VamAcctThm VamMap VamMapThm VamDefrag VamDefragThm VamDefragAcct VamDefragMap VamBal VamBalThm VamDefragBal VamPointer.
+From Arsenal Require VamDev VamBlockList Vam VamInv VamInvThm VamAcctThm VamMap VamMapThm VamDefrag VamDefragThm VamDefragAcct VamDefragMap VamBal VamBalThm VamDefragBal VamPointer VamPtrStable VamPtrValue.
 From Arsenal Require Import SyncMem SyncMemProofs.
 Import ListNotations.
 Open Scope Z_scope.
@@ -149,4 +149,50 @@ Theorem C14_allocator_map_ok_target : forall c v G s f v' calls,
              VamPointer.map_target v' a' = VamPointer.map_target v a /\ VamPointer.target_ok v' s a'.
 Proof. intros c v G s f v' calls Ha. exact (VamPointer.map_ok_target c Ha v G s f v' calls). Qed.
 Print Assumptions C14_allocator_map_ok_target.
+(* The pointer VALUE.  Ghost: every successful vkMapMemory hands out a fresh base token for its memory object
+   (bases, replayed from the driver calls of each operation: brun); ptr v B a = B (a_mem a) + FindOffset is the value
+   Allocation.Map hands out.  reachP = the histories of reachDB (defragmentation included) with the tokens threaded.
+   - stable: across ANY API call, a user that holds a Map (or is persistently mapped) before and after and was not
+     relocated sees the SAME value: no call unmaps, frees or remaps a memory object that still has a user;
+   - after a successful Map: value = base + offset, where base is the token of this call's own vkMapMemory (never
+     seen before) if it issued one and otherwise the token the object already had; every allocation on that object
+     shares the base; the target is the allocation's own mapped bytes (target_ok);
+   - after relocation: an allocation that EndDefragPass moved into the memory object of its (persistently mapped)
+     temporary has the base that object's mapping already had plus the destination offset. *)
+Theorem C14_allocator_pointer_value_stable : forall c v run G Bn o f v' r calls s a a',
+  cfg_acct c -> VamPtrValue.reachP c v run G Bn -> VamDefragThm.op_avoids run o -> op_ok v o -> op_dom o ->
+  VamBalThm.op_bal G o -> step c v o f = (v', r, calls) -> r <> RPanic -> r <> RStuck ->
+  slot_is v s a -> (1 <= G s \/ a_persist a = true) ->
+  slot_is v' s a' -> (1 <= VamBalThm.gstep G o r s \/ a_persist a' = true) ->
+  a_mem a' = a_mem a -> find_offset v' a' = find_offset v a ->
+  VamPtrValue.ptr v' (fst (VamPtrValue.brun Bn calls)) a' = VamPtrValue.ptr v (fst Bn) a.
+Proof. intros c v run G Bn o f v' r calls s a a' Ha. exact (VamPtrValue.pointer_value_stable c Ha v run G Bn o f v' r calls s a a'). Qed.
+Print Assumptions C14_allocator_pointer_value_stable.
+
+Theorem C14_allocator_pointer_value_after_map : forall c v run G Bn s f v' calls,
+  cfg_acct c -> VamPtrValue.reachP c v run G Bn -> VamDefragThm.op_avoids run (OMap s) -> op_ok v (OMap s) ->
+  step c v (OMap s) f = (v', ROk, calls) ->
+  let a := get_alloc v s in
+  let B' := fst (VamPtrValue.brun Bn calls) in
+  exists a' o,
+    slot_is v' s a' /\ a_mem a' = a_mem a /\ find_offset v' a' = Some o /\ find_offset v a = Some o /\
+    VamPtrValue.ptr v' B' a' = Some (B' (a_mem a) + o) /\ VamPointer.target_ok v' s a' /\
+    ((exists off size, List.In (CMap (a_mem a) off size 0) calls) /\ B' (a_mem a) = snd Bn /\
+       (forall x, fst Bn x < B' (a_mem a))
+     \/ (forall off size, ~ List.In (CMap (a_mem a) off size 0) calls) /\ B' (a_mem a) = fst Bn (a_mem a)) /\
+    (forall s2 a2, slot_is v' s2 a2 -> a_mem a2 = a_mem a ->
+       VamPtrValue.ptr v' B' a2 = match find_offset v' a2 with Some o2 => Some (B' (a_mem a) + o2) | None => None end).
+Proof. intros c v run G Bn s f v' calls Ha. exact (VamPtrValue.pointer_value_after_map c Ha v run G Bn s f v' calls). Qed.
+Print Assumptions C14_allocator_pointer_value_after_map.
+
+Theorem C14_allocator_relocated_pointer_value : forall c v run G Bn o f v' run' r calls dr t at_ s a',
+  cfg_acct c -> VamPtrValue.reachP c v run G Bn -> VamDefragThm.dop_ok v run o -> VamDefragBal.dop_bal G run o ->
+  Vam.dstep c v run o f = (v', run', r, calls, dr) -> r <> RPanic -> r <> RStuck ->
+  Util.zlen (v_tab v') <= 4194304 ->
+  slot_is v t at_ -> (1 <= G t \/ a_persist at_ = true) ->
+  slot_is v' s a' -> (1 <= G s \/ a_persist a' = true) -> a_mem a' = a_mem at_ ->
+  VamPtrValue.ptr v' (fst (VamPtrValue.brun Bn calls)) a'
+  = match find_offset v' a' with Some o0 => Some (fst Bn (a_mem at_) + o0) | None => None end.
+Proof. intros c v run G Bn o f v' run' r calls dr t at_ s a' Ha. exact (VamPtrValue.relocated_pointer_value c Ha v run G Bn o f v' run' r calls dr t at_ s a'). Qed.
+Print Assumptions C14_allocator_relocated_pointer_value.
 End Allocator.
